@@ -259,7 +259,7 @@ type UtxoObs struct {
 type WalletObs struct {
 	ID           string
 	UseErr       string
-	TotalBalance int64 // UseWallet.TotalBalance
+	TotalBalance int64    // UseWallet.TotalBalance
 	Bal          [4]int64 // total, spendable, withdrawable staking, withdrawable binding (detail query)
 	BalNoDetail  int64
 	Utxos        []UtxoObs
@@ -432,4 +432,31 @@ func firstDiff(a, b string) string {
 		hb = len(b)
 	}
 	return fmt.Sprintf("…%s… VS …%s…", a[lo:ha], b[lo:hb])
+}
+
+// RawBucket reads all entries of a (nested) bucket through the real database underneath the
+// interposer, e.g. RawBucket("t","m") = pending transactions.
+func (w *Wallet) RawBucket(path ...string) (map[string][]byte, error) {
+	out := map[string][]byte{}
+	err := mwdb.View(w.DB.Inner, func(tx mwdb.ReadTransaction) error {
+		b := tx.TopLevelBucket(path[0])
+		for _, p := range path[1:] {
+			if b == nil {
+				break
+			}
+			b = b.Bucket(p)
+		}
+		if b == nil {
+			return fmt.Errorf("bucket %v not found", path)
+		}
+		ents, err := b.GetByPrefix(nil)
+		if err != nil {
+			return err
+		}
+		for _, e := range ents {
+			out[string(e.Key)] = e.Value
+		}
+		return nil
+	})
+	return out, err
 }
